@@ -328,8 +328,11 @@ def log_scale(data, out):
 
 
 def log_scale_cropbufs_inplace(crop_bufs):
-    m = np.min(crop_bufs, axis=(-1, -2)) - 1
-    np.log(crop_bufs - m[:, np.newaxis, np.newaxis], out=crop_bufs)
+    # Subtract the minimum first: min - 1 is not representable in float32
+    # buffers for |min| >= 2**24 and log(x - (min - 1)) gives -inf or a
+    # wrong offset there
+    m = np.min(crop_bufs, axis=(-1, -2))
+    np.log(crop_bufs - m[:, np.newaxis, np.newaxis] + 1, out=crop_bufs)
 
 
 @numba.njit
